@@ -257,6 +257,13 @@ func (e *c42Env) local(ms []*labels.Matcher, lo, hi int64) []c42Series {
 	return out
 }
 
+// c42WideQueryable hands out whole chunks: its ChunkQuerier ignores the requested range.
+type c42WideQueryable struct{ *tsdb.DB }
+
+func (w c42WideQueryable) ChunkQuerier(_, _ int64) (storage.ChunkQuerier, error) {
+	return w.DB.ChunkQuerier(math.MinInt64, math.MaxInt64)
+}
+
 type c42RoundTripper struct{ h http.Handler }
 
 func (rt c42RoundTripper) RoundTrip(r *http.Request) (*http.Response, error) {
@@ -268,15 +275,24 @@ func (rt c42RoundTripper) RoundTrip(r *http.Request) (*http.Response, error) {
 func (e *c42Env) remote(c c42Case) (out []c42Series, seekProblem string, err error) {
 	frame := 1 << 20
 	accepted := []prompb.ReadRequest_ResponseType{prompb.ReadRequest_SAMPLES}
+	var queryable storage.SampleAndChunkQueryable = e.db
 	if strings.HasPrefix(c.Mode, "chunked/") {
 		fmt.Sscanf(c.Mode, "chunked/%d", &frame)
 		accepted = []prompb.ReadRequest_ResponseType{prompb.ReadRequest_STREAMED_XOR_CHUNKS, prompb.ReadRequest_SAMPLES}
+	}
+	if strings.HasPrefix(c.Mode, "chunkedwide/") {
+		// A server whose chunk querier does not cut chunks at the requested range (storage.ChunkQuerier
+		// allows chunks to reach beyond it; the Prometheus TSDB happens to re-encode them): the
+		// client-side iterator has to apply the range itself.
+		fmt.Sscanf(c.Mode, "chunkedwide/%d", &frame)
+		accepted = []prompb.ReadRequest_ResponseType{prompb.ReadRequest_STREAMED_XOR_CHUNKS, prompb.ReadRequest_SAMPLES}
+		queryable = c42WideQueryable{e.db}
 	}
 	ext := labels.EmptyLabels()
 	if c.Ext {
 		ext = labels.FromStrings("region", "eu")
 	}
-	handler := NewReadHandler(promslog.NewNopLogger(), nil, e.db, func() config.Config {
+	handler := NewReadHandler(promslog.NewNopLogger(), nil, queryable, func() config.Config {
 		return config.Config{GlobalConfig: config.GlobalConfig{ExternalLabels: ext}}
 	}, 0, 4, frame)
 	u, _ := url.Parse("http://c42.invalid/api/v1/read")
@@ -338,10 +354,13 @@ func c42Eval(r *vx.Run, e *c42Env, c c42Case) string {
 		err  error
 	)
 	if p, stack := vx.Guard(func() { got, seek, err = e.remote(c) }); p != nil {
-		r.Violation("remote-read-panic/"+strings.SplitN(c.Mode, "/", 2)[0], fmt.Sprintf("case %+v: %v\n%s", c, p, stack), c)
+		r.Violation("remote-read-panic/"+strings.TrimSuffix(strings.SplitN(c.Mode, "/", 2)[0], "wide"), fmt.Sprintf("case %+v: %v\n%s", c, p, stack), c)
 		return "panic"
 	}
 	mode := strings.SplitN(c.Mode, "/", 2)[0]
+	if mode == "chunkedwide" {
+		mode = "chunked"
+	}
 	if err != nil {
 		r.Violation("remote-read-error/"+mode, fmt.Sprintf("case %+v: %v", c, err), c)
 		return "error"
@@ -429,10 +448,11 @@ func c42StripHints(in []string) []string {
 	return out
 }
 
-// c42HintProblem: the remote hint must equal the local one, or be "unknown" (0) where the local
-// one is a counter hint: a chunk querier re-encodes a chunk that is cut by the range, and the first
-// histogram of a re-encoded chunk carries the weaker, always safe, unknown hint. A gauge hint (3)
-// must survive, and "reset"/"no reset" must never be swapped.
+// c42HintProblem: the remote hint must equal the local one, except that "unknown" (0) on either
+// side is compatible with any counter hint: a chunk querier re-encodes a chunk that is cut by the
+// range, and the first histogram of a re-encoded chunk carries the weaker, always safe, unknown
+// hint (which side re-encodes depends on the response type). A gauge hint (3) must survive, and
+// "reset"/"no reset" must never be swapped.
 func c42HintProblem(got, want []string) string {
 	if len(got) != len(want) {
 		return ""
@@ -446,7 +466,8 @@ func c42HintProblem(got, want []string) string {
 	}
 	for i := range want {
 		g, w := hint(got[i]), hint(want[i])
-		if g == w || (g == "0" && (w == "1" || w == "2")) {
+		counter := func(h string) bool { return h == "0" || h == "1" || h == "2" }
+		if g == w || (counter(g) && counter(w) && (g == "0" || w == "0")) {
 			continue
 		}
 		return fmt.Sprintf("sample %d: remote hint %s, local hint %s (%s)", i, g, w, want[i][:strings.Index(want[i], "|")])
@@ -534,7 +555,7 @@ func TestVerifC42(t *testing.T) {
 	if r.Quick() {
 		points = []int64{math.MinInt64, 0, 39, 40, 99, 100, 120, 200, 290, 301, math.MaxInt64}
 	}
-	modes := []string{"sampled", "chunked/1", "chunked/64", "chunked/256", "chunked/1048576"}
+	modes := []string{"sampled", "chunked/1", "chunked/64", "chunked/256", "chunked/1048576", "chunkedwide/1", "chunkedwide/1048576"}
 	var cases []c42Case
 	for _, m := range vx.SortedKeys(c42MatcherSets) {
 		for i, lo := range points {
